@@ -493,6 +493,70 @@ def gen_sync_scenario(seed: int, case_no: int) -> dict:
             "seed": seed, "case_no": case_no, "T": T, "epoch": epoch}
 
 
+def gen_backlog_scenario(seed: int, case_no: int) -> dict:
+    """Template family 'the device runs behind': one host thread issues short operators that each launch a long kernel on one or two streams,
+    over three to five profiler steps, so that kernels launched in one step are still queued or running when the next step begins (the first
+    kernel launched inside a later window then has no predecessor inside the window and was launched with a non-empty queue).  Some steps end
+    with a blocking cudaDeviceSynchronize that drains the device.  All instants are causally consistent."""
+    rng = random.Random(seed * 4_000_037 + case_no)
+    host_pid, gpu_pid = 1, 0
+    streams = rng.sample([7, 13, 20], rng.randint(1, 2))
+    ext = [1]
+    corr = [100]
+    evs = []
+
+    def X(cat, name, pid, tid, ts, dur, **args):
+        if cat in ("cpu_op", "cuda_runtime"):
+            args.setdefault("External id", ext[0])
+            ext[0] += 1
+        e = {"ph": "X", "cat": cat, "name": name, "pid": pid, "tid": tid, "ts": ts, "dur": dur, "args": args}
+        evs.append(e)
+        return e
+
+    t = rng.randint(0, 5)
+    X("cpu_op", "aten::zeros", host_pid, 1, t, 2)
+    t += 3
+    free = {s_: 0 for s_ in streams}
+    nsteps = rng.randint(3, 5)
+    for st in range(nsteps + 1):
+        s0 = t
+        t += rng.randint(0, 2)
+        for _ in range(rng.randint(1, 3)):
+            d = rng.randint(6, 14)
+            l = t + rng.randint(1, 2)
+            c = corr[0]; corr[0] += 1
+            X("cpu_op", rng.choice(CPU_OPS), host_pid, 1, t, d)
+            X("cuda_runtime", "cudaLaunchKernel", host_pid, 1, l, rng.randint(1, 3), correlation=c)
+            s_ = rng.choice(streams)
+            ks = max(l + rng.randint(0, 3), free[s_] + rng.choice([0, 0, 1]))
+            kd = rng.randint(10, 45)
+            X("kernel", rng.choice(COMPUTE_KERNELS + COMM_KERNELS), gpu_pid, s_, ks, kd, stream=s_, device=gpu_pid, correlation=c)
+            free[s_] = ks + kd
+            t += d + rng.randint(0, 3)
+        drained = max(free.values())
+        if st > 0 and rng.random() < 0.45 and drained > t + 1:
+            cs = corr[0]; corr[0] += 1
+            sb = drained + rng.randint(0, 2)
+            call = X("cuda_runtime", "cudaDeviceSynchronize", host_pid, 1, t, sb - t, correlation=cs)
+            evs.append({"ph": "X", "cat": "cuda_sync", "name": "Context Sync", "pid": gpu_pid, "tid": 0, "ts": t, "dur": drained - t,
+                        "args": {"cuda_sync_kind": "Context Sync", "stream": -1, "correlation": cs, "External id": call["args"]["External id"]}})
+            t = sb + rng.randint(0, 2)
+            X("cpu_op", rng.choice(CPU_OPS), host_pid, 1, t, rng.randint(3, 30))
+            t = evs[-1]["ts"] + evs[-1]["dur"]
+        end = t + rng.randint(0, 2)
+        evs.append({"ph": "X", "cat": "user_annotation", "name": f"ProfilerStep#{100 + st}", "pid": host_pid, "tid": 1, "ts": s0, "dur": end - s0, "args": {}})
+        t = end + rng.randint(0, 3)
+    epoch = rng.choice([0, 1000000])
+    first, rest = evs[0], evs[1:]
+    rng.shuffle(rest)
+    out = [first] + rest
+    for e in out:
+        e["ts"] += epoch
+    T = max(e["ts"] + e["dur"] for e in out) - epoch
+    return {"ranks": {0: {"events": out, "fmt": "gz" if rng.random() < 0.5 else "json", "indent": False}}, "profile": "backlog_scenario",
+            "seed": seed, "case_no": case_no, "T": T, "epoch": epoch}
+
+
 def gen_event_sync_scenario(seed: int, case_no: int) -> dict:
     """Template family for CUDA-event synchronisation (cudaEventRecord / cudaEventSynchronize / cudaStreamWaitEvent with their
     'Event Sync' / 'Stream Wait Event' records), one host thread, 1-3 streams.  A round = launch kA on stream S1; record an event on S1;
@@ -763,7 +827,7 @@ def huge_thread_ids(case: dict) -> None:
                 e["tid"] = m[e["tid"]]
 
 
-def add_second_process(case: dict, rng) -> None:
+def add_second_process(case: dict, rng, shift: int = 0) -> None:
     """A second host process in some ranks whose thread has the SAME thread id as a thread of the first one (as with several
     processes recorded into one trace): a copy of one host thread's events under another pid; its launch-like calls get fresh
     correlation ids without device partner."""
@@ -785,12 +849,37 @@ def add_second_process(case: dict, rng) -> None:
                 continue
             e2 = copy.deepcopy(e)
             e2["pid"] = new_pid
+            if shift:
+                e2["ts"] = e2["ts"] + shift        # the copy overlaps the original without being nested in it
             a = e2.get("args")
             if isinstance(a, dict) and "correlation" in a:
                 corr += 1
                 a["correlation"] = corr
             extra.append(e2)
         evs.extend(extra)
+
+
+def host_rows_on_a_stream(case: dict, rng) -> None:
+    """A host thread that shares its (process id, thread id) with a device stream (a trainer running as pid 1 beside GPU 1, its thread 7
+    beside stream 7): copies of a few existing host operators, with nothing beneath them, are written with the pid / tid of one stream, at
+    times before that stream's first activity."""
+    import copy
+    for rk in case["ranks"].values():
+        evs = rk["events"]
+        dev = [e for e in evs if e.get("ph") == "X" and "dur" in e and isinstance(e.get("args"), dict) and "stream" in e["args"]]
+        ops = [e for e in evs if e.get("ph") == "X" and "dur" in e and e.get("cat") == "cpu_op" and not isinstance((e.get("args") or {}).get("correlation"), int)]
+        dev = [e for e in dev if e["pid"] != 0 and e["tid"] != 0]       # process / thread id 0 is the subject of C13's known finding
+        if not dev or not ops:
+            continue
+        k = rng.choice(dev)
+        t0 = min(e["ts"] for e in dev if (e["pid"], e["tid"]) == (k["pid"], k["tid"]))
+        for j, o in enumerate(rng.sample(ops, min(3, len(ops)))):
+            o2 = copy.deepcopy(o)
+            o2["pid"], o2["tid"] = k["pid"], k["tid"]
+            o2["ts"], o2["dur"] = t0 - 4 * (j + 1), 2
+            o2["args"] = {}
+            evs.append(o2)
+        case["host_rows_on_stream"] = True
 
 
 def relabel_ranks(case: dict, salt: int = 0) -> dict:
